@@ -15,7 +15,9 @@ ActsAll == {"RegPk", "RegCtrl", "AddKeyIdx", "RemoveKeyIdx", "AddNewAuthKey", "S
             "AddRecoveryOld", "ChangeRecoveryOld", "AddKeyByRecovery", "RemoveKeyByRecovery", "RemoveController",
             "AddKeyByCtrl", "RemoveKeyByCtrl", "AddAttrByCtrl", "SetAuthKeyByCtrl", "RevokeID", "RevokeByCtrl", "VerifySig"}
 
-KeyRec(k, au) == [key |-> k, revoked |-> FALSE, auth |-> au]
+KeyRec(k, au) == [key |-> k, revoked |-> FALSE, auth |-> au, pklist |-> TRUE]
+\* a key added with addNewAuthKey (pure authentication key)
+AKey(k, au) == [key |-> k, revoked |-> FALSE, auth |-> au, pklist |-> FALSE]
 Own(k) == [NoneRec EXCEPT !.st = "valid", !.keys = <<KeyRec(k, TRUE)>>]
 I0 == [x \in Ids3 |-> NoneRec]
 \* RegPk(A,k1), RegPk(B,k2)
@@ -31,10 +33,13 @@ I4 == [I1 EXCEPT !["C"] = [Own("k3") EXCEPT !.rec = COld("k2")]]
 I5 == [I1 EXCEPT !["C"] = [NoneRec EXCEPT !.st = "valid", !.ctrl = CId("A")]]
 \* + RegPk(C,k3), AddNewAuthKey(C,k1,1), RemoveKeyIdx(C,k3,2): C's first key is a REVOKED key with authentication right
 I6 == [I1 EXCEPT !["C"] = [NoneRec EXCEPT !.st = "valid",
-                              !.keys = <<[key |-> "k3", revoked |-> TRUE, auth |-> TRUE], KeyRec("k1", TRUE)>>]]
+                              !.keys = <<[key |-> "k3", revoked |-> TRUE, auth |-> TRUE, pklist |-> TRUE], AKey("k1", TRUE)>>]]
+\* + RegPk(C,k3), AddNewAuthKey(C,k1,1), RemoveAuthKey(C,2,1): C's second key is a pure authentication key whose
+\* authentication right was taken away (not revoked, not in the publicKey list): it must authorize nothing
+I7 == [I1 EXCEPT !["C"] = [NoneRec EXCEPT !.st = "valid", !.keys = <<KeyRec("k3", TRUE), AKey("k1", FALSE)>>]]
 Inits0 == {I0}
 Inits1 == {I1}
-InitsAll == {I0, I1, I2, I3, I4, I5, I6}
+InitsAll == {I0, I1, I2, I3, I4, I5, I6, I7}
 InitsPrep == {I2, I3, I4, I5}
 Inits2 == {I2}
 Inits3 == {I3}
